@@ -229,20 +229,61 @@ def rule_b(ck, R):
                 if not acts:
                     bad = bad or '%s is %s without looking at the payload size' % (nm, 'accepted' if accept else 'rejected')
                     continue
-                A = L(acts[0])
-                if nm in carry:
-                    if accept and (engp.feasible(p.cond_terms(), [L(BS) - A + 1]) or engp.feasible(p.cond_terms(), [A - L(BS) + 1])):
-                        bad = bad or '%s is accepted on a path where block size and actual payload size may differ' % nm
-                    if reject and engp.feasible(p.cond_terms(), [L(BS) - A, A - L(BS)]):
-                        bad = bad or ('%s is rejected on the path {%s} although its payload may have exactly the announced block size: '
-                                      'a response carrying the 32-bit payload the document prescribes for its code is taken for a damaged frame'
-                                      % (nm, '; '.join(fmt(c) for c in p.cond_terms())[:200]))
-                else:
-                    if accept and engp.feasible(p.cond_terms(), [Lin.const(1) - A]):
-                        bad = bad or ('%s (a frame type without payload) is accepted on the path {%s} where the actual payload size may be non-zero: '
-                                      'an extended frame is taken for a valid one' % (nm, '; '.join(fmt(c) for c in p.cond_terms())[:200]))
-                    if reject and not engp.feasible(p.cond_terms(), [Lin.const(1) - A]):
-                        bad = bad or '%s is rejected although it carries no payload' % nm
+        # the oracle is counted in OCTETS: the receiver must account for every octet that arrived, not for whole words
+        # only.  payload.size is in octets; a word is 2 octets under WORD-SIZE-16 and 1 otherwise.
+        #   carry types accepted  <=>  payload.size == word * block size;   others accepted  <=>  payload.size == 0
+        W16 = E['RP_OPT_WORD_SIZE_16']
+        obad = None
+        rbad = None
+        nchk = 0
+        for p in ps:
+            if p.end != 'return' or p.ret is None or not sym.is_c(p.ret):
+                continue
+            conds = p.cond_terms()
+            S = None
+            for c in conds:
+                for x in sym.subterms(c):
+                    if x[0] == 'f' and x[2] == 'size' and fmt(x).endswith('payload.size'):
+                        S = x
+            tv, excluded = None, set()
+            for c in conds:
+                if c[0] == 'cmp' and 'header.type' in fmt(c[2]) and sym.is_c(c[3]):
+                    if c[1] == '==':
+                        tv = c[3][1]
+                    elif c[1] == '!=':
+                        excluded.add(c[3][1])
+            applies = [n for n, v in types.items() if (tv is None and v not in excluded) or v == tv]
+            if not applies:
+                continue
+            w16 = [opt_test(c, W16) for c in conds]
+            words = [2] if True in w16 else [1] if False in w16 else [1, 2]
+            accept = p.ret == C(0)
+            desc = '; '.join(fmt(c) for c in conds)[:220]
+            for nm in applies:
+                for w in words:
+                    nchk += 1
+                    want_t = ('*', C(w), BS) if (nm in carry and w != 1) else BS if nm in carry else C(0)
+                    want = L(BS).scale(w) if nm in carry else Lin.const(0)
+                    what = ('%d * block size' % w if w != 1 else 'block size') if nm in carry else '0'
+                    if S is None:
+                        if accept:
+                            obad = obad or '%s is accepted on the path {%s} without looking at the number of payload octets' % (nm, desc)
+                        continue
+                    if accept and (engp.feasible(conds, [want - L(S) + 1]) or engp.feasible(conds, [L(S) - want + 1])):
+                        obad = obad or ('%s is accepted on the path {%s} where the number of payload octets may differ from %s '
+                                        '(word = %d octet%s): a frame extended or truncated by part of a word passes the size test, is '
+                                        'executed and acknowledged' % (nm, desc, what, w, 's' if w > 1 else ''))
+                    if not accept and engp.feasible([sym.substitute(c, {S: want_t}) for c in conds]):
+                        rbad = rbad or '%s is rejected on the path {%s} although its payload may have exactly %s octets' % (nm, desc, what)
+        if nchk == 0:
+            ck.broken('C07.b', 'payload_plausible:octets:accept', R.where('payload_plausible'), 'no path of payload_plausible could be compared with the octet count oracle')
+        else:
+            ck.verdict(obad is None, 'C07.b', 'payload_plausible:octets:accept', R.where('payload_plausible'),
+                       'counted in octets: payload-carrying types are accepted only when payload.size == word * block size, the others only when payload.size == 0 (%d type/word cases)' % nchk
+                       if obad is None else obad)
+            ck.verdict(rbad is None, 'C07.b', 'payload_plausible:octets:reject', R.where('payload_plausible'),
+                       'counted in octets: no frame whose payload.size is exactly word * block size (payload-carrying types) or 0 (the others) is rejected (%d type/word cases)' % nchk
+                       if rbad is None else rbad)
         if set(types) - seen:
             bad = bad or 'no arm for %s' % sorted(set(types) - seen)
         unknown_ok = any(sym.is_c(p.ret) and p.ret[1] < 0 and not any(c[0] == 'cmp' and c[1] == '==' and 'header.type' in fmt(c[2]) for c in p.cond_terms())
